@@ -6,6 +6,7 @@ import FluteModel.Lemmas.RecvKey
 import FluteModel.Lemmas.RecvToy
 import FluteModel.RecvMini
 import FluteModel.Lemmas.RecvMiniLaw
+import FluteModel.Lemmas.RecvFullLaw
 /-
   C19 - FDT expiry: delivery only through an FDT instance unexpired on the sender's clock.
 
@@ -306,6 +307,29 @@ example : Toy.iface.Law := Toy.law
 /-- ... and it is satisfied by the object `Mini` of the executable driver - the very model that is
     compared with the real receiver on every run (proved in `Lemmas/RecvMiniLaw.lean`) -/
 example : Mini.iface.Law := Mini.law
+
+/-- ... and by the FULL object model `ObjRecv` of agent orecv, plugged into the receiver through the
+    adapter `RecvFull.lean` (the driver runs this instantiation next to `Mini` on every op) -/
+example : Full.iface.Law := Full.law
+
+/-- `expired_only_is_silent` for the receiver model instantiated with the full object model
+    `ObjRecv` (No-Code exactly, other codecs / content encodings as `ObjRecv`'s parameters), without
+    any contract hypothesis: writer ⇒ attach ⇒ unexpired instance is closed for the real object model -/
+theorem expired_only_is_silent_full_object_model (cfg : Config) (ops : List Op)
+    (tr : List (Op × State Full.Any × Res × List Ev))
+    (hrun : runT Full.iface (State.init cfg) ops = some tr) (toi : Nat)
+    (hexp : ∀ e ∈ tr, ∀ f ∈ e.2.1.fdtCurrent, f.Usable e.1.now →
+      ∀ inst, f.inst = some inst → inst.getFile toi = none) :
+    ∀ e ∈ tr, (∀ w, Ev.w toi w ∉ e.2.2.2) ∧ (∀ id, Ev.attach toi id ∉ e.2.2.2) :=
+  expired_only_is_silent Full.iface Full.law cfg ops tr hrun toi hexp
+
+/-- `writer_call_needs_attach` for the full object model -/
+theorem writer_call_needs_attach_full_object_model (cfg : Config) (ops : List Op)
+    (tr : List (Op × State Full.Any × Res × List Ev))
+    (hrun : runT Full.iface (State.init cfg) ops = some tr)
+    (toi : Nat) (hna : ∀ e ∈ tr, ∀ id, Ev.attach toi id ∉ e.2.2.2) :
+    ∀ e ∈ tr, ∀ w, Ev.w toi w ∉ e.2.2.2 :=
+  writer_call_needs_attach Full.iface Full.law cfg ops tr hrun toi hna
 
 /-- `expired_only_is_silent` for the validated executable model, without any contract hypothesis -/
 theorem expired_only_is_silent_driver_model (cfg : Config) (ops : List Op)
